@@ -87,7 +87,77 @@ func r11RunDSL(c *an.Ctx) {
 			}
 			return true
 		})
+		// a helper that takes the phase as an argument (walkRoots(roots, prepareSet)): the phase is the one named at
+		// the call, the forms are those in which the helper uses its parameter
+		hinfo := h.Pkg.TypesInfo
+		sig := h.Obj.Type().(*types.Signature)
+		for k, a := range call.Args {
+			o := an.ObjOf(info, an.Unparen(a))
+			if o == nil || o.Pkg() == nil || o.Pkg().Path() != an.P("eval") || k >= sig.Params().Len() {
+				continue
+			}
+			ph, isPhase := phaseRunners[o.Name()]
+			if _, isFunc := o.(*types.Func); !isPhase || !isFunc {
+				continue
+			}
+			param := sig.Params().At(k)
+			ast.Inspect(h.Decl.Body, func(n ast.Node) bool {
+				hc, ok := n.(*ast.CallExpr)
+				if !ok {
+					return true
+				}
+				form := ""
+				if an.ObjOf(hinfo, an.Unparen(hc.Fun)) == param {
+					form = "direct"
+				}
+				if sel, isSel := an.Unparen(hc.Fun).(*ast.SelectorExpr); isSel && sel.Sel.Name == "WalkSets" && len(hc.Args) == 1 && an.ObjOf(hinfo, an.Unparen(hc.Args[0])) == param {
+					form = "walk"
+				}
+				if form != "" {
+					key := fmt.Sprintf("%d/%s", ph, form)
+					if !seen[key] {
+						seen[key] = true
+						out = append(out, [2]string{fmt.Sprint(ph), form})
+					}
+				}
+				return true
+			})
+		}
 		return out
+	}
+	// wholeListVia: the helper called here ranges over one of its parameters, the call passes rootsVar for it, and what
+	// the helper does with its function parameter it does to the loop's root
+	wholeListVia := func(call *ast.CallExpr, rootsVar types.Object) bool {
+		h := c.FuncOfObj(an.Callee(info, call))
+		if h == nil {
+			return false
+		}
+		hinfo := h.Pkg.TypesInfo
+		sig := h.Obj.Type().(*types.Signature)
+		ok := false
+		ast.Inspect(h.Decl.Body, func(n ast.Node) bool {
+			r, isR := n.(*ast.RangeStmt)
+			if !isR {
+				return true
+			}
+			for k := 0; k < sig.Params().Len() && k < len(call.Args); k++ {
+				if an.ObjOf(hinfo, an.Unparen(r.X)) == sig.Params().At(k) && an.ObjOf(info, an.Unparen(call.Args[k])) == rootsVar {
+					rv := an.ObjOf(hinfo, r.Value)
+					usesRoot := false
+					ast.Inspect(r.Body, func(m ast.Node) bool {
+						if id, isId := m.(*ast.Ident); isId && rv != nil && hinfo.Uses[id] == rv {
+							usesRoot = true
+						}
+						return true
+					})
+					if usesRoot {
+						ok = true
+					}
+				}
+			}
+			return true
+		})
+		return ok
 	}
 	locs, cs := g.FindCalls(func(call *ast.CallExpr) bool {
 		_, _, ok := phaseOfCall(info, call)
@@ -180,6 +250,9 @@ func r11RunDSL(c *an.Ctx) {
 		}
 		if rng == nil && pcall.via && pcall.phase == 0 {
 			continue // the execute loop lives in the helper (R11.5 looks at it there)
+		}
+		if rng == nil && pcall.via && wholeListVia(pcall.call, rootsVar) {
+			continue // the loop over the whole root list lives in the helper, which is handed the list
 		}
 		if rng == nil {
 			loopProbs = append(loopProbs, fmt.Sprintf("%s call at %s is not inside a range over the roots", phaseNames[pcall.phase], c.Position(pcall.call.Pos())))
@@ -871,36 +944,49 @@ func r11Progress(c *an.Ctx) {
 	if f := c.MustFunc("R11.10", "eval", "sortDependenciesR"); f != nil {
 		info := f.Pkg.TypesInfo
 		n := 0
+		g := an.NewCFG(info, f.Decl.Body)
 		ast.Inspect(f.Decl.Body, func(nd ast.Node) bool {
-			is, ok := nd.(*ast.IfStmt)
-			if !ok {
+			// the recursive call and the visited test that guards it, whichever way it is written (`if !seen[k] { rec }` or
+			// `if seen[k] { continue }; rec`): the facts that hold at the call
+			call, ok := nd.(*ast.CallExpr)
+			if !ok || an.Callee(info, call) != f.Obj || len(call.Args) == 0 {
 				return true
 			}
-			// the guarded recursive call
-			var visited types.Object
-			ast.Inspect(is.Body, func(m ast.Node) bool {
-				if call, ok := m.(*ast.CallExpr); ok && an.Callee(info, call) == f.Obj && len(call.Args) > 0 {
-					visited = an.ObjOf(info, call.Args[0])
-				}
-				return true
-			})
+			visited := an.ObjOf(info, call.Args[0])
 			if visited == nil {
 				return true
 			}
-			n++
-			mentions := false
-			ast.Inspect(is.Cond, func(m ast.Node) bool {
-				if ix, ok := m.(*ast.IndexExpr); ok {
+			facts, found := g.FactsFor(call)
+			if !found {
+				return true
+			}
+			guarded, mentions := false, false
+			var guardSrc string
+			for _, fc := range facts {
+				ast.Inspect(fc.Cond, func(m ast.Node) bool {
+					ix, ok := m.(*ast.IndexExpr)
+					if !ok {
+						return true
+					}
+					if _, isMap := info.Types[ix.X].Type.Underlying().(*types.Map); !isMap {
+						return true
+					}
+					guarded = true
+					guardSrc = an.Src(c.Fset, fc.Cond)
 					ast.Inspect(an.ResolveLocal(info, f.Decl.Body, ix.Index), func(k ast.Node) bool {
 						if id, ok := k.(*ast.Ident); ok && info.Uses[id] == visited {
 							mentions = true
 						}
 						return true
 					})
-				}
+					return true
+				})
+			}
+			if !guarded {
 				return true
-			})
-			c.Check(mentions, "R11.10", f.Name+"#visited-test", is.Pos(), "the visited test is made on the dependency that is descended into", "the visited test `"+an.Src(c.Fset, is.Cond)+"` does not look at "+visited.Name()+", the dependency the guarded recursive call descends into: only the first dependency of every root is followed")
+			}
+			n++
+			c.Check(mentions, "R11.10", f.Name+"#visited-test", call.Pos(), "the visited test is made on the dependency that is descended into", "the visited test `"+guardSrc+"` does not look at "+visited.Name()+", the dependency the guarded recursive call descends into: only the first dependency of every root is followed")
 			return true
 		})
 		c.Floor("R11.10", n, 1, "guarded recursive descents in sortDependenciesR")
